@@ -225,8 +225,20 @@ AbsDate(d) == <<d.y, d.m, d.d>>
                    choices or standalone comment choices [cline |-> c, ind])] *)
 IsCLine(x) == "cline" \in DOMAIN x
 
+(* desc kind "chars": the description is any string over DescAlphabet (t.desc.cs: sequence of indexes) -- the systematic
+   counterpart of the hand-picked trigger descriptions: every first character the lexer dispatches on, every pair and triple *)
+DescAlphabet == << P0("a"), P0("A"), P0("1"), P0(" "), P0(":"), P0("$"), P0("("), P0(")"), P0("="), P0("-"), P0("*"), P0("."),
+                   P0(","), P0("@"), P0("é"), P("😀", 1), P0("\""), P0("["), P0("/"), P0("!"), P0("E"), P0("]") >>
+RECURSIVE CharsP(_)
+CharsP(cs) == IF Len(cs) = 0 THEN P0("") ELSE LET r == CharsP(Tail(cs)) h == DescAlphabet[Head(cs)] IN [s |-> h.s \o r.s, a |-> h.a + r.a]
+(* a description cannot begin with what the header grammar reads as a status or a code, nor begin or end with a blank *)
+DescCharsOK(cs) == /\ Len(cs) >= 1
+                   /\ DescAlphabet[cs[1]].s \notin {" ", "(", "*", "!"}
+                   /\ DescAlphabet[cs[Len(cs)]].s # " "
+
 DescText(t) ==
     CASE t.desc.kind = "text"    -> Descriptions[t.desc.i].s
+      [] t.desc.kind = "chars"   -> CharsP(t.desc.cs).s
       [] t.desc.kind = "trigger" -> TriggerDescriptions[t.desc.i].p.s
       [] t.desc.kind = "pipe"    -> Descriptions[t.desc.i].s \o " | " \o Notes[t.desc.j].s
       [] OTHER                   -> ""
@@ -264,6 +276,7 @@ RenHeader(t) ==
                ELSE [s3 EXCEPT !.lex = Append(@, [k |-> "code", c0 |-> Len(s2.s) + 1, c1 |-> Len(s3.s), r0 |-> Len(s2.s) + 1 - s2.a,
                                                     r1 |-> Len(s3.s) - s3.a, t |-> SubSeq(s3.s, Len(s2.s) + 2, Len(s3.s))])]
         s4 == CASE t.desc.kind = "text"    -> Put(Sp(s3b, 1), Descriptions[t.desc.i], "payee")
+                [] t.desc.kind = "chars"   -> Put(Sp(s3b, 1), CharsP(t.desc.cs), "payee")
                 [] t.desc.kind = "trigger" -> Put(Sp(s3b, 1), TriggerDescriptions[t.desc.i].p, "payee")
                 [] t.desc.kind = "pipe"    -> Put(Sp(Lit(Sp(Put(Sp(s3b, 1), Descriptions[t.desc.i], "payee"), 1), "|", "pipe"), 1), Notes[t.desc.j], "note")
                 [] OTHER                   -> s3b
@@ -278,6 +291,7 @@ RenTx(t) ==
 TxOK(t) == /\ \A i \in 1..Len(t.posts) : IsCLine(t.posts[i]) \/ PostingOK(t.posts[i])
            /\ (t.desc.kind = "none" /\ Len(t.cmt) = 1) => t.hgap >= 1
            /\ Len(t.cmt) = 1 => t.hgap >= 1
+           /\ t.desc.kind = "chars" => DescCharsOK(t.desc.cs)
 
 (* ---- directives -----------------------------------------------------------------------------
    [dir |-> "account", acct, cmt <<>>|<<c>>]
